@@ -42,6 +42,12 @@ def _raw_value(r):
         return [("a", "b", "c")]
     if t == "none":
         return None
+    if t == "iter":
+        return iter([((k if not isinstance(k, dict) else k["int"]), v) for k, v in r["pairs"]])
+    if t == "gen":
+        return (((k if not isinstance(k, dict) else k["int"]), v) for k, v in r["pairs"])
+    if t == "dictview":
+        return {(k if not isinstance(k, dict) else k["int"]): v for k, v in r["pairs"]}.items()
     raise ValueError(t)
 
 
@@ -57,6 +63,10 @@ def build(case):
         el = schema()
         if not b.get("noset"):
             el.set(b.get("set"))
+        if "assign" in b:
+            # "only validation routines should write this attribute directly" — they do
+            el.value = b["assign"]["value"]
+            el.u = b["assign"]["u"]
         return el
     if kind in ("List", "Array"):
         member = _scalar_cls(b["member"]).named(b.get("member_name"))
@@ -81,6 +91,8 @@ def build(case):
         el = flatland.Dict.named(b.get("name")).of(*fields)()
         for f in b["fields"]:
             el[f["name"]].set(f.get("set"))
+        if "child" in b:
+            return el[b["child"]]
         return el
     if kind == "Dict":
         fields = [flatland.String.named(n) for n in b["fields"]]
@@ -102,10 +114,12 @@ def mk_validator(vd):
     from flatland.validation.number import Luhn10
     d = dict(vd)
     cls = d.pop("cls")
+    for attr, m in d.pop("messages", []):
+        d[attr] = m if isinstance(m, str) else tuple(m)
     C = Luhn10 if cls == "Luhn10" else getattr(V, cls)
     paths = d.pop("field_paths", None)
     if cls in ("MapEqual", "ValuesEqual", "UnisEqual"):
-        return C(*paths)
+        return C(*paths, **d)
     if cls in ("ValueLessThan", "ValueGreaterThan"):
         return C(d.pop("boundary"), **d)
     if cls == "ValueAtMost":
@@ -127,15 +141,16 @@ def mk_validator(vd):
             kw["allowed_schemes"] = tuple(d["allowed_schemes"])
         if d.get("allowed_parts") is not None:
             kw["allowed_parts"] = set(d["allowed_parts"])
+        kw.update({k: v for k, v in d.items() if k not in ("allowed_schemes", "allowed_parts")})
         return C(**kw)
     if cls == "HTTPURLValidator":
-        kw = {}
+        kw = {k: v for k, v in d.items() if k not in ("required_parts", "forbidden_parts")}
         for k in ("required_parts", "forbidden_parts"):
             if d.get(k) is not None:
                 kw[k] = {p: (True if r is True else tuple(r)) for p, r in d[k]}
         return C(**kw)
     if cls == "URLCanonicalizer":
-        kw = {}
+        kw = {k: v for k, v in d.items() if k != "discard_parts"}
         if d.get("discard_parts") is not None:
             kw["discard_parts"] = tuple(d["discard_parts"])
         return C(**kw)
@@ -198,6 +213,8 @@ def view_of(case, el):
             view["raw"] = {"t": "unset"}
         elif raw is None:
             view["raw"] = {"t": "none"}
+        elif hasattr(raw, "__next__"):
+            view["raw"] = {"t": "iterator"}  # one-shot: nothing may be consumed here, and nothing is left anyway
         else:
             try:
                 pairs = list(to_pairs(raw))
@@ -244,6 +261,8 @@ def view_of(case, el):
         try:
             url = list(_urlparse.urlparse(val))
             for p in discard:
+                if p not in URL_PARTS:
+                    continue  # an illegal part name raises in the validator (modelled); the view only says what urllib does
                 i = URL_PARTS.index(p)
                 url[i] = "" if url[i] is not None else None
             out = _urlparse.urlunparse(url)
@@ -357,7 +376,10 @@ def documented(case, el):
     cls = v["cls"]
     b = case["build"]
     kind = b["kind"]
-    scalar = kind in SCALARS or "index" in b
+    scalar = kind in SCALARS or "index" in b or "child" in b
+    if cls in ("IsEmail", "URLValidator", "HTTPURLValidator", "URLCanonicalizer") and kind == "String" \
+            and el.value is not None and not isinstance(el.value, str):
+        return None, None  # a directly assigned value that is not text
     if cls == "Present" and scalar:
         return el.u != "", ("missing", {})
     if cls == "IsTrue" and scalar:
@@ -366,6 +388,12 @@ def documented(case, el):
         return not bool(el.value), ("true", {})
     if cls == "Converted" and scalar:
         return el.value is not None, ("incorrect", {})
+    if cls == "ValueIn" and scalar and isinstance(v["valid_options"], str):
+        # "a list, set, or other container of valid element values": a str is a container of its characters; for a
+        # value that is not text nothing is contained — certainly no exception
+        if not isinstance(el.value, str):
+            return False, ("fail", {})
+        return None, None
     if cls == "ValueIn" and scalar:
         return any(el.value == o for o in v["valid_options"]), ("fail", {})
     if cls == "ShorterThan" and scalar:
@@ -409,11 +437,11 @@ def documented(case, el):
         if not all(isinstance(e.label, str) for e in els):
             return (True if ok else None), None
         return ok, ("unequal", {"labels": ", ".join(e.label for e in els[:-1]), "last_label": els[-1].label})
-    if cls == "NotDuplicated" and "index" in b:
-        i = b["index"]
+    if cls == "NotDuplicated" and ("index" in b or "child" in b):
         from flatland.schema.base import Slot
         cont = el.parent.parent if isinstance(el.parent, Slot) else el.parent
         sibs = list(cont.children)
+        i = [j for j, x in enumerate(sibs) if x is el][0]
         dup = any((s.value == el.value and s.u == el.u) for s in sibs[:i])
         return not dup, ("failure", {"position": i + 1, "container_label": cont.label})
     if cls in ("HasAtLeast", "HasAtMost", "HasBetween") and kind in ("List", "Array") and "index" not in b:
@@ -434,7 +462,11 @@ def documented(case, el):
         r = b["raw"]
         if r["t"] in ("int", "ints"):
             return True, None  # not iterable as pairs: deemed valid
-        if r["t"] in ("dict", "pairs", "str", "triples"):
+        if r["t"] in ("iter", "gen"):
+            # a one-shot iterator was consumed by set(): the raw data is no longer available — "only elements in
+            # which raw is available and iterable will be considered for validation; all others are deemed valid"
+            return True, None
+        if r["t"] in ("dict", "pairs", "str", "triples", "dictview"):
             if r["t"] == "str" and r["s"] != "":
                 given = None
             elif r["t"] == "triples":
@@ -461,64 +493,72 @@ def documented(case, el):
     if cls == "Luhn10" and kind in ("Integer", "Boolean"):
         if el.value is None:
             return False, ("invalid", {})
+        if not isinstance(el.value, int):
+            return None, None  # a directly assigned value that is not a number
         n = int(el.value)
         return (n >= 0 and _luhn_textbook(n)), ("invalid", {})
     if cls == "IsEmail" and kind == "String":
         return _email_documented(el.value, v.get("non_local", True), v.get("local_part_pattern")), ("invalid", {})
     if cls == "URLValidator" and kind == "String":
-        if el.value is None:
-            return False, ("bad_format", {})
+        # docstring: bad_format = unparseable; blocked_scheme = scheme not in allowed_schemes (all schemes with '*');
+        # blocked_part = the URL has a component not in allowed_parts.  Valid iff none of the three applies.
         try:
             url = _urlparse.urlparse(el.value.strip())
         except Exception:
-            return False, ("bad_format", {})
+            return False, (["bad_format"], {})
         schemes = v.get("allowed_schemes")
-        if url.scheme == "" or (schemes is not None and tuple(schemes) != ("*",) and url.scheme not in schemes):
-            return False, ("blocked_scheme", {})
-        allowed = v.get("allowed_parts")
-        allowed = URL_PARTS if allowed is None else allowed
-        for p in URL_PARTS:
-            if p not in allowed and getattr(url, p) != "":
-                return False, ("blocked_part", {})
-        return True, None
+        any_scheme = schemes is None or tuple(schemes) == ("*",)
+        allowed = set(URL_PARTS if v.get("allowed_parts") is None else v["allowed_parts"])
+        violated = []
+        if url.scheme == "" or not (any_scheme or url.scheme in schemes):
+            violated.append("blocked_scheme")
+        if {p for p in URL_PARTS if getattr(url, p) != ""} - allowed:
+            violated.append("blocked_part")
+        return not violated, (violated, {})
     if cls == "HTTPURLValidator" and kind == "String":
-        if el.value is None:
-            return True, None
+        # docstring: required_parts — True: the part is required; a sequence: the value must be in it.
+        # forbidden_parts — True: the part is forbidden; a sequence: the value must not be in it.
+        # An element without a value has no scheme and no hostname.
         req = v.get("required_parts")
-        req = [["scheme", ["http", "https"]], ["hostname", True]] if req is None else req
+        req = dict([["scheme", ["http", "https"]], ["hostname", True]] if req is None else req)
         forb = v.get("forbidden_parts")
-        forb = [["username", True], ["password", True]] if forb is None else forb
-        req, forb = dict((k, r) for k, r in req), dict((k, r) for k, r in forb)
-        try:
-            parsed = _urlparse.urlparse(el.value)
+        forb = dict([["username", True], ["password", True]] if forb is None else forb)
+        if el.value is None:
+            vals = {p: None for p in HTTP_PARTS}
+        else:
+            try:
+                parsed = _urlparse.urlparse(el.value)
+            except ValueError:
+                return False, (["bad_format"], {})
             vals = {}
             for p in HTTP_PARTS:
-                x = getattr(parsed, p)
-                vals[p] = None if x is None else str(x)
-        except ValueError:
-            return False, ("bad_format", {})
-        # documented: required True -> part must be present; collection -> value must be in it;
-        # forbidden True -> part must be absent/empty; collection -> value must not be in it (checked part by part)
-        for p in HTTP_PARTS:
-            r = req.get(p)
-            if r is True and vals[p] is None:
-                return False, ("required_part", {})
-            if r not in (None, True) and r and vals[p] not in r:
-                return False, ("required_part", {})
-            f = forb.get(p)
-            if f is True and vals[p]:
-                return False, ("forbidden_part", {})
-            if f not in (None, True) and f and vals[p] in f:
-                return False, ("forbidden_part", {})
-        return True, None
+                try:
+                    vals[p] = getattr(parsed, p)
+                except ValueError:
+                    vals[p] = ValueError  # an unreadable part (a port that is not a number): the URL is malformed
+            if vals["port"] not in (None, ValueError):
+                vals["port"] = str(vals["port"])
+        violated = []
+        if ValueError in vals.values():
+            violated.append("bad_format")
+        known = {p: x for p, x in vals.items() if x is not ValueError}
+        if any((rule is True and known[p] is None) or (rule is not True and rule and known[p] not in rule)
+               for p, rule in req.items() if p in known):
+            violated.append("required_part")
+        if any((rule is True and known[p]) or (rule is not True and rule and known[p] in rule)
+               for p, rule in forb.items() if p in known):
+            violated.append("forbidden_part")
+        return not violated, (violated, {})
     if cls == "URLCanonicalizer" and kind == "String":
         discard = v.get("discard_parts")
         if discard is not None and not discard:
             return True, None
+        if any(p not in URL_PARTS for p in (["fragment"] if discard is None else discard)):
+            return None, None  # outside the documented vocabulary of part names
         try:
             _urlparse.urlparse(el.value)
         except Exception:
-            return False, ("bad_format", {})
+            return False, (["bad_format"], {})
         return True, None
     return None, None
 
@@ -566,10 +606,17 @@ def oracle_case(case):
     else:
         new = obs["errors"][len(pre):] if obs["errors"][:len(pre)] == pre else None
         if msg is not None:
-            text = expected_message(validator, el, msg[0], msg[1])
-            exp = pre if text in pre else pre + [text]
-            if obs["errors"] != exp:
-                fails.append({"clause": "false-verdict-records-the-one-message", "expected": exp, "observed": obs["errors"]})
+            # (the documentation does not order the reasons a URL is rejected for: any violated one may be named)
+            keys = msg[0] if isinstance(msg[0], list) else [msg[0]]
+            exps = []
+            for key in keys:
+                if getattr(validator, key) == "":
+                    exps.append(pre)  # an empty message attribute records nothing
+                    continue
+                text = expected_message(validator, el, key, msg[1])
+                exps.append(pre if text in pre else pre + [text])
+            if obs["errors"] not in exps:
+                fails.append({"clause": "false-verdict-records-the-one-message", "expected": exps[0], "observed": obs["errors"]})
         elif new is None or len(new) > 1:
             fails.append({"clause": "false-verdict-records-the-one-message", "expected": "one new message", "observed": obs["errors"]})
         for m in (new or []):
@@ -582,6 +629,8 @@ def oracle_case(case):
         val = obs["_value_before"]
         discard = case["v"].get("discard_parts")
         discard = ["fragment"] if discard is None else discard
+        if not isinstance(obs["value_after"], (str, type(None))) or (val is None and obs["value_after"] is not None):
+            fails.append({"clause": "canonical-url-is-text", "expected": val, "observed": obs["value_after"]})
         if isinstance(val, str) and discard:
             try:
                 u = _urlparse.urlparse(val)
@@ -701,6 +750,12 @@ def rand_seq_case(rng):
 
 
 def rand_dup_case(rng):
+    if rng.random() < 0.15:
+        # a child of a Dict among its sibling fields
+        names = ["a", "b", "c", "d"][:rng.randint(2, 4)]
+        pool = ["x", "y", "x ", ""]
+        fields = [{"name": nm, "type": "String", "set": rng.choice(pool)} for nm in names]
+        return {"v": {"cls": "NotDuplicated"}, "build": {"kind": "fields", "name": "form", "fields": fields, "child": rng.choice(names)}}
     member = rng.choice(["String", "Integer"])
     n = rng.randint(1, 6)
     pool = ["a", "b", "a ", "1", "01", "", "x"] if member == "String" else [1, 2, "1", "01", " 1", "x", "", "y"]
@@ -758,8 +813,11 @@ def rand_dict_case(rng):
         raw = {"t": "none"}
     elif r < 0.84:
         raw = {"t": rng.choice(["int", "ints"])}
-    elif r < 0.9:
+    elif r < 0.88:
         raw = {"t": "flat", "pairs": [[k, "v"] for k in keys]}
+    elif r < 0.92:
+        # one-shot iterators / generators / dict views as the set() argument
+        raw = {"t": rng.choice(["iter", "gen", "dictview"]), "pairs": [[k, "v"] for k in keys]}
     elif r < 0.94:
         raw = {"t": "str", "s": rng.choice(["", "abc", "ab", "x"])}
     elif r < 0.97:
@@ -767,6 +825,8 @@ def rand_dict_case(rng):
     else:
         raw = {"t": "dict", "pairs": [[k, "v"] for k in keys] + [[{"int": 1}, "v"]]}
     b = {"kind": "Dict", "name": rng.choice(["d", "form"]), "fields": fields, "raw": raw}
+    if rng.random() < 0.15:
+        b["sparse"] = True
     return {"v": {"cls": cls}, "build": b}
 
 
@@ -896,11 +956,16 @@ def rand_net_case(rng):
         else:
             if rng.random() < 0.5:
                 v["discard_parts"] = rng.sample(URL_PARTS, rng.randint(0, 3))
+            if rng.random() < 0.08:
+                v["discard_parts"] = rng.choice([["port"], ["fragment", "hostname"], ["username", "query"]])
     return {"v": v, "build": b}
 
 
 def hostile_case(rng):
     """validators applied outside their documented element kinds / with odd parameters"""
+    if rng.random() < 0.12:
+        c = {"v": {"cls": "ValueIn", "valid_options": rng.choice(["yes", "yesno", ""])}, "build": rand_scalar_build(rng)}
+        return c
     r = rng.random()
     if r < 0.25:
         c = rand_scalar_case(rng)
@@ -924,8 +989,46 @@ def hostile_case(rng):
     return c
 
 
+_MSG_ATTRS = {}
+
+
+def message_attrs(cls):
+    """message attributes of a validator class (looked at the running library)"""
+    if cls not in _MSG_ATTRS:
+        import flatland.validation as V
+        from flatland.validation.number import Luhn10
+        C = Luhn10 if cls == "Luhn10" else getattr(V, cls)
+        out = []
+        for a in dir(C):
+            if a.startswith("_"):
+                continue
+            x = getattr(C, a)
+            if (isinstance(x, str) and "%(" in x) or (isinstance(x, tuple) and len(x) == 3 and all(isinstance(y, str) for y in x)):
+                out.append(a)
+        _MSG_ATTRS[cls] = out
+    return _MSG_ATTRS[cls]
+
+
+def with_overrides(rng, case):
+    """Validator(**kw) overrides of message attributes (incl. the empty text) and directly assigned values"""
+    if rng.random() < 0.07:
+        attrs = message_attrs(case["v"]["cls"])
+        if attrs:
+            ms = []
+            for a in rng.sample(attrs, rng.randint(1, len(attrs))):
+                ms.append([a, rng.choice(["", "custom: %(label)s", "%(label)s / %(name)s!", "no placeholders", "100%% %(label)s",
+                                          ["one %(label)s", "many %(label)s", "name"]])])
+            case["v"]["messages"] = ms
+    b = case["build"]
+    if b["kind"] in SCALARS and rng.random() < 0.04:
+        b["assign"] = rng.choice([{"value": 5, "u": ""}, {"value": None, "u": "x"}, {"value": "abc", "u": "abcdef"},
+                                  {"value": 0, "u": "0"}, {"value": "", "u": "q"}])
+    return case
+
+
 def with_pre_errors(rng, case):
     """sometimes the element already carries errors, sometimes the very message that will be added"""
+    with_overrides(rng, case)
     r = rng.random()
     if r < 0.12:
         case["pre_errors"] = ["earlier problem"]
@@ -957,7 +1060,7 @@ class C15(Property):
     theorems = ["Flatland.C15.Proofs." + t for t in (
         "decides", "C15_full", "setWith_nontext_key_reported", "setWith_bad_pairs_valid",
         "decides_isEmail", "isEmail_length_on_idna", "isEmail_accepts_short_idna",
-        "value_preserved", "messages", "messages_total", "false_verdict_records_one", "true_verdict_records_nothing",
+        "messages", "messages_total", "false_verdict_records_one", "true_verdict_records_nothing", "expansion_of_chosen",
         "verdict_shape",
         "luhn_pairs_eq_digits", "luhn10Check_eq", "notdup_first_kept",
         "decides_present", "decides_isTrue", "decides_isFalse", "decides_converted", "decides_valueIn",
@@ -980,6 +1083,8 @@ class C15(Property):
         "elements are String/Integer/Boolean scalars, List/Array of them, Dict of them; validator parameters are ints/strs/bools",
         "MapEqual field paths are plain child names resolved by the harness (path evaluation is C14's subject)",
         "network validators on non-text values are not compared with the model",
+        "never generated: custom comparator/transform/domain_pattern/urlparse objects, note_warning, NotDuplicated on container members, MapEqual with nested or '..' paths (path evaluation is C14's), ValueIn with set/dict containers",
+        "IsEmail: the docstring says the IDN domain must be 'less than 253 characters', the code accepts exactly 253; spec B and the oracle follow the code's reading (<= 253, the DNS limit) — a documentation discrepancy, not counted as a finding",
     ]
     level_text = "proof"
     level_note = ("partial: the per-class decision theorems, Luhn equivalence, first-occurrence, value preservation and message theorems are proved for all "
@@ -990,7 +1095,7 @@ class C15(Property):
     rule = ("every validator class x random parameterisations x String/Integer/Boolean elements set with None / adapted / unadapted text / blank / never set, "
             "List/Array with 0-5 members, members with duplicates at random positions, Dicts set with dict / pairs / flat / non-iterable / malformed raw values, "
             "e-mail and URL shape pools plus random assembly, e-mail domains of mixed ASCII / non-ASCII labels steered to every side of 253 characters as text and in IDN form (incl. text <= 253 < IDN), optional local_part_pattern; 6% hostile stream (validator on an element kind it is not documented for, missing field path, "
-            "negative counts, None bounds); 20% of cases start with pre-existing errors (incl. the very message).  non-trivial = the validator returned a verdict")
+            "negative counts, None bounds, ValueIn with a str as container, illegal discard_parts names); 7% of cases override message attributes (incl. the empty text, plural triples), 4% of scalar elements get value/u assigned directly; Dicts are also set from one-shot iterators, generators and dict views, SparseDict 15%; NotDuplicated also on children of a Dict; 20% of cases start with pre-existing errors (incl. the very message).  non-trivial = the validator returned a verdict")
 
     def corpus(self):
         out = []
@@ -1013,6 +1118,17 @@ class C15(Property):
         for n_lab in (14, 15, 25):
             out.append({"v": {"cls": "IsEmail"}, "build": {"kind": "String", "name": "email",
                                                           "set": "bob@" + ".".join(["snow\u2603man"] * n_lab) + ".com"}})
+        # fixed fe503f0 (audit rev3a C15-1): set() from a one-shot iterator / generator
+        for t, pairs in (("iter", [["a", "1"], ["b", "2"]]), ("iter", [["a", "1"], ["b", "2"], ["z", "3"]]), ("gen", [["a", "1"], ["b", "2"]])):
+            for cls in ("SetWithAllFields", "SetWithKnownFields"):
+                out.append({"v": {"cls": cls}, "build": {"kind": "Dict", "name": "d", "fields": ["a", "b"], "raw": {"t": t, "pairs": pairs}}})
+        # open KF-C15-a / D-C15-8 / D-C15-9
+        out.append({"v": {"cls": "HTTPURLValidator"}, "build": {"kind": "String", "name": "url", "set": None}})
+        out.append({"v": {"cls": "URLCanonicalizer"}, "build": {"kind": "String", "name": "url", "set": None}})
+        out.append({"v": {"cls": "ValueIn", "valid_options": "yes"}, "build": {"kind": "String", "name": "yn", "set": None}})
+        # message attribute overridden with the empty text: a false verdict that records nothing
+        out.append({"v": {"cls": "Present", "messages": [["missing", ""]]}, "build": {"kind": "String", "name": "s", "set": ""}})
+        out.append({"v": {"cls": "URLCanonicalizer", "discard_parts": ["port"]}, "build": {"kind": "String", "name": "url", "set": "http://a.example/"}})
         # fixed 5e93603 (D-C15-5: raw items that are not pairs), 7308ea3 (D-C15-6: a key that is not text)
         out.append({"v": {"cls": "SetWithKnownFields"}, "build": {"kind": "Dict", "name": "d", "fields": ["a", "b"], "raw": {"t": "str", "s": "abc"}}})
         out.append({"v": {"cls": "SetWithAllFields"}, "build": {"kind": "Dict", "name": "d", "fields": ["a", "b"], "raw": {"t": "triples"}}})
@@ -1076,6 +1192,8 @@ class C15(Property):
             return False
         if any(not ok(k) for k in (view.get("raw") or {}).get("keys", [])):
             return False
+        if isinstance(case["v"].get("valid_options"), str):
+            return False  # `value in <str>` (substring test / TypeError) is not modelled
         if case["v"]["cls"] in ("HTTPURLValidator", "URLCanonicalizer", "IsEmail") and \
                 not (view.get("value") is None or isinstance(view.get("value"), str)):
             return False  # urlparse / str methods on a number: outside the modelled domain
@@ -1089,7 +1207,21 @@ class C15(Property):
         return oracle_case(case)
 
     def classify(self, case, failure):
-        return None  # no open finding for C15 (D-C15-5/6/7 are fixed in /repo)
+        """A failure is filed under an open finding only if the case is in its class AND the observation is the one
+        the finding describes."""
+        v = case["v"]
+        view = case["view"]
+        cl = failure.get("clause")
+        if v["cls"] == "HTTPURLValidator" and view.get("value") is None and case["build"]["kind"] == "String" \
+                and cl == "verdict-equals-documented-condition" and failure.get("observed") is True:
+            return "KF-C15-a"
+        if v["cls"] == "URLCanonicalizer" and view.get("value") is None and cl == "canonical-url-is-text" \
+                and failure.get("observed") in ({"other": "bytes"}, ""):
+            return "D-C15-8"
+        if v["cls"] == "ValueIn" and isinstance(v.get("valid_options"), str) and not isinstance(view.get("value"), str) \
+                and cl == "returns-a-verdict-without-raising" and failure.get("observed") == "TypeError":
+            return "D-C15-9"
+        return None
 
     def nontrivial(self, case, obs):
         return obs.get("raise") is None
